@@ -9,7 +9,9 @@ Ev     == Trace[l + 1]
 LastEv == Trace[l]
 I0     == Trace[i0]
 D0     == I0.dev
-T      == I0.tgt
+\* merge cases (C18) carry the expected effective target
+IsMerge == "parts" \in DOMAIN I0.tgt
+T      == IF IsMerge THEN I0.tgt.parts.merged ELSE I0.tgt
 
 RuleOf(j) == [seq |-> j.seq, action |-> j.action, dir |-> j.dir, src |-> j.src, dst |-> j.dst, svc |-> j.svc]
 RulesOf(jp) == [i \in DOMAIN jp |-> RuleOf(jp[i])]
@@ -83,7 +85,8 @@ Mon ==
   /\ Chk(~(err # "" /\ errl = l), "C08", err, "")
   /\ Chk(foreign = "" \/ LastEv.ev = "Init", "C07", "request addresses an object without the Netspoc prefix: " \o foreign, "")
   /\ Chk(LastEv.ev \in {"Resume", "Done"} => Post(LastEv.post), "HARNESS", "post state of replica differs", "")
-  /\ Chk(LastEv.ev = "Done" => Equivalent, "EQUIV", IF nchg = 0 THEN "unchanged" ELSE "final", KFKey)
+  /\ Chk(LastEv.ev = "Done" /\ IsMerge => Equivalent, "C18", "policies are not the union of the Netspoc and the raw rules", "")
+  /\ Chk(LastEv.ev = "Done" /\ ~IsMerge => Equivalent, "EQUIV", IF nchg = 0 THEN "unchanged" ELSE "final", KFKey)
   /\ Chk(LastEv.ev = "Done" => LastEv.n2 = 0, "FIXPOINT", "second compare reports changes", KFKey)
 Accepted == TLCGet("stats").diameter = Len(Trace)
 =============================================================================
